@@ -350,6 +350,7 @@ class Run:
     def __init__(self, ctx):
         self.ctx = ctx
         self.bad = 0
+        self.fam = {}
         self.stats = {"streams": 0, "raw_streams": 0, "header_sets": 0, "runs_normal": 0, "runs_c": 0, "runs_d": 0, "headers_expanded": 0,
                       "headers_with_range": 0, "headers_in_domain": 0, "blocks_merged": 0, "unterminated_last": 0, "pdsh_Q": 0,
                       "unmodelled": 0, "hosts_max": 0}
@@ -363,7 +364,9 @@ class Run:
             ctx.known_finding(known, detail[:200])
             return
         self.bad += 1
-        if self.bad > 8:
+        fam = known or kind
+        self.fam[fam] = self.fam.get(fam, 0) + 1
+        if self.fam[fam] > 4:
             return
         if kind == "input":
             ctx.violation("input", case=case, expected=expected, observed=observed, engine="dshbak", detail=detail)
@@ -448,13 +451,14 @@ def check_cases(R, eng, cases):
                     R.stats["blocks_merged"] += 1
                 oracle += sorted(hs, key=numkey)
                 dom = in_domain(hs)
-                hdr_jobs.append((hdr, hs, cj, dom, c["desc"]))
+                hdr_jobs.append((hdr, hs, cj, dom, c["desc"], ci, known))
             mcases.append("coalesce %s %s" % (hexs(stream), hexlist(oracle)))
             mmeta.append((ci, m, o, (parsed, groups)))
     # ---- headers through the C parser ----
-    exp = eng.expand([h for h, _, _, _, _ in hdr_jobs])
+    exp = eng.expand([j[0] for j in hdr_jobs])
     good_headers = []
-    for (hdr, hs, cj, dom, desc), names in zip(hdr_jobs, exp):
+    sfail = set()
+    for (hdr, hs, cj, dom, desc, ci, known), names in zip(hdr_jobs, exp):
         R.stats["headers_expanded"] += 1
         R.stats["hosts_max"] = max(R.stats["hosts_max"], len(hs))
         if b"[" in hdr:
@@ -466,7 +470,8 @@ def check_cases(R, eng, cases):
             R.report("input", dict(cj, header=hexs(hdr), hosts=hexlist(hs)), "header expands to exactly %r" % [h.decode("latin-1") for h in hs[:12]],
                      "header %r -> %s" % (hdr.decode("latin-1"), "rejected by the host-list parser" if names is None else [n.decode("latin-1") for n in names[:14]]),
                      "header %r, read as a pdsh host expression, does not expand to the hosts whose output it heads [%s]" % (hdr.decode("latin-1"), desc),
-                     known=F_BARE if sig_bare(hs) else None)
+                     known=known or (F_BARE if sig_bare(hs) else None))
+            sfail.add(ci)
         else:
             good_headers.append((hdr, hs))
             if len(R.samples) < 4 and b"[" in hdr and len(hs) > 2:
@@ -479,6 +484,8 @@ def check_cases(R, eng, cases):
         if mr == "UNMODELLED":
             R.stats["unmodelled"] += 1
             continue
+        if m == "coalesce" and ci in sfail:
+            continue          # the property itself failed on this case (reported above)
         skip = (c["unterm"] and c.get("last_labelled") and ctx.is_known(F_UNTERM))
         if mr is None or not mr.startswith("OK"):
             R.report("corr", cj, "model result", str(mr)[:200], "model failed on the case", corr="dshbak: model runs")
@@ -601,7 +608,7 @@ def run(ctx):
     CH = 1500
     for i in range(0, len(cases), CH):
         good += check_cases(R, eng, cases[i:i + CH])
-        if R.bad > 8:
+        if R.bad > 40:
             break
     ctx.log("script runs: %d, headers read back: %d" % (R.evals, R.stats["headers_expanded"]))
     # ---- the statement of C19_header_expansion evaluated on the model (C parser's model on the model's header) ----
